@@ -39,6 +39,11 @@ OnePrintLeaves == { OnePrintLeaf(IntE(5), "5"), OnePrintLeaf(IntE(0), "0"), OneP
 ParentLeaf == [stmts |-> <<BlockS("pz", <<Text("p:"), PrintS(CallE("parent", <<>>)), Text(":p")>>)>>,
                defs |-> <<>>, out |-> [vv \in VV |-> S2B("p:Pq:p")], inh |-> TRUE]
 
+(* after a block() or parent() capture has returned, parent() still means the parent of the block being rendered *)
+ParentLeaf2 == [stmts |-> <<BlockS("pz", <<Text("p:"), PrintS(CallE("block", <<StrE("q")>>)), PrintS(CallE("parent", <<>>)), Text("+"),
+                                            SetCap("zz", <<PrintS(CallE("parent", <<>>))>>), PrintS(NameE("zz")),
+                                            FilterS(<<"up">>, <<PrintS(CallE("parent", <<>>))>>), Text(":p")>>)>>,
+                defs |-> <<>>, out |-> [vv \in VV |-> S2B("p:QPq+PqPQ:p")], inh |-> TRUE]
 Wrap(kind, n, in) ==
   CASE kind = "setcap" ->
          LET t == n % 3 IN
@@ -76,13 +81,15 @@ Twice(p) == [stmts |-> p.stmts \o <<Text("+")>> \o p.stmts, defs |-> p.defs, out
    so the overriding block of the parent() leaf must not sit inside a macro body *)
 NoMacro(ks) == \A q \in 1..Len(ks) : ks[q] # "macro"
 Pieces == {Build(ks, 1, Plain) : ks \in KindSeqs} \cup {Build(ks, 1, ParentLeaf) : ks \in {q \in KindSeqs : NoMacro(q)}}
+          \cup {Build(ks, 1, ParentLeaf2) : ks \in {q \in KindSeqs : NoMacro(q) /\ Len(q) <= 2}} \cup {ParentLeaf2}
           \cup {Twice(Build(ks, 1, Plain)) : ks \in {q \in KindSeqs : Len(q) <= 2}}
           \cup {Build(ks, 1, EmptyLeaf) : ks \in {q \in KindSeqs : Len(q) <= 3}}
           \cup {Build(ks, 1, lf) : ks \in {q \in KindSeqs : Len(q) <= 1}, lf \in OnePrintLeaves} \cup OnePrintLeaves
 
 Templates(p) ==
   IF p.inh
-  THEN ("base" :> p.defs \o <<Text("^"), BlockS("main", <<Text("BASE"), BlockS("pz", <<Text("P"), PrintS(NameE("x"))>>)>>), Text("$")>>)
+  THEN ("base" :> p.defs \o <<Text("^"), BlockS("main", <<Text("BASE"), BlockS("pz", <<Text("P"), PrintS(NameE("x"))>>)>>), Text("$"),
+                               IfS(BoolE(FALSE), <<BlockS("q", <<Text("Q")>>)>>, <<>>, FALSE)>>)
        @@ ("t" :> <<ExtendsS(StrE("base")), BlockS("main", <<Text("S")>> \o p.stmts \o <<Text("E")>>)>>)
   ELSE ("t" :> p.defs \o <<Text("^S")>> \o p.stmts \o <<Text("E$")>>)
 Expected(p) == S2B("^S") \o p.out[<<>>] \o S2B("E$")
